@@ -86,6 +86,7 @@ type Server struct {
 	sessQer  map[string]*QerEntry
 	slice    map[string]*QerEntry
 	cmds     []Cmd
+	writes   int // commands other than reads (kept incrementally for Counts)
 	errs     int
 	inflight int
 	last     time.Time
@@ -204,6 +205,10 @@ func (sv *service) ModuleCommand(ctx context.Context, req *pb.CommandRequest) (*
 	s.inflight++
 	seq := len(s.cmds) + 1
 	s.cmds = append(s.cmds, Cmd{Seq: seq, Module: req.Name, Cmd: req.Cmd, At: time.Now()})
+	if req.Cmd != "read" && !strings.HasPrefix(req.Cmd, "get_") {
+		s.writes++
+	}
+
 	ff := s.FaultFn
 	s.mu.Unlock()
 
@@ -434,6 +439,14 @@ func (s *Server) Snapshot() Tables {
 	sort.Slice(t.Far, func(i, j int) bool { return t.Far[i].Seq < t.Far[j].Seq })
 
 	return t
+}
+
+// Counts returns the number of commands, of write commands and of commands answered with an error, without copying the tables.
+func (s *Server) Counts() (cmds, writes, errs int) {
+	s.mu.Lock()
+	defer s.mu.Unlock()
+
+	return len(s.cmds), s.writes, s.errs
 }
 
 // CmdsSince returns the commands with Seq > seq.
